@@ -165,8 +165,12 @@ def coq_case(case, KJ, mu, S):
                                                      C.qc_mat(S), C.qc_vec(case["y"]))
 
 
+ITERATIVE = {"cg", "fast_pred_var"}
+COND_MAX = 300.0  # iterative paths (CG / Lanczos) are only compared on well-conditioned Kxx+S
+
+
 def tol(flags):
-    if "cg" in flags or "fast_pred_var" in flags:
+    if ITERATIVE & set(flags):
         return 1e-5
     return 1e-8
 
@@ -222,7 +226,8 @@ def run(out, ctx):
     out.rule = ("random exact-GP problems (n<=%d, t<=3, d<=3, 10 kernels x 3 means x 3 likelihoods), each under the "
                 "default settings, every single non-default flag and random flag subsets; non-trivial = n>=2 and "
                 "posterior covariance differs from the prior block by >1e-6" % (5 if tier == "quick" else 7))
-    out.extra["tolerances"] = {"dense/cholesky": 1e-8, "cg or lanczos(full rank)": 1e-5, "marginal noise": 1e-9}
+    out.extra["tolerances"] = {"dense/cholesky": 1e-8, "cg or lanczos(full rank), cond<=%g" % COND_MAX: 1e-5,
+                                "marginal noise": 1e-9}
     for case, (KJ, mu, S), r in zip(cases, prior, res):
         rd = C.Reader(r)
         if rd.int() != 1:
@@ -232,10 +237,15 @@ def run(out, ctx):
         mm = rd.qs(t)
         mc = rd.qmat(t, t)
         nontrivial = n >= 2 and any(abs(float(mc[i][i]) - KJ[n + i][n + i]) > 1e-6 for i in range(t))
+        A = torch.tensor([[KJ[i][j] + float(S[i][j]) for j in range(n)] for i in range(n)])
+        cond = float(torch.linalg.cond(A))
         combos = [()] + [(f,) for f in flagnames]
         for _ in range(2 if tier == "quick" else 6):
             combos.append(tuple(f for f in flagnames if rng.random() < 0.4))
         for flags in combos:
+            if cond > COND_MAX and ITERATIVE & set(flags):
+                out.count("rejected: cond(Kxx+S)>%g on an iterative path" % COND_MAX)
+                continue
             out.case(dict(n=n, t=t, d=case["d"], kernel=case["kernel"], mean=case["mean"], lik=case["lik"],
                           flags=sorted(flags)), nontrivial, label="flags=" + ("+".join(sorted(flags)) or "default"))
             out.count("kernel=" + case["kernel"]); out.count("lik=" + case["lik"]); out.count("n=%d" % n)
